@@ -911,6 +911,7 @@ func init() {
 			delete(x.m.ByName, b.Name)
 			b.Name = name
 			x.m.ByName[name] = id
+			delete(x.m.DelSubs, name)
 		}
 	})
 	c8Reg("DeleteMailboxWithRemoteID", true, func(x *c8Exec, a core.Action) {
